@@ -980,6 +980,11 @@ class Lower:
                 if has_il(r):
                     return self.seq_assign_list(m, self.addr(self.ex(a0)), r, t)
                 return 'seq_%s__assign(%s, %s)' % (m, self.addr(self.ex(a0)), self.addr(self.ex(args[1])))
+            if name in ('operator==', 'operator!='):
+                # element-wise comparison of two vectors: left to the prelude (bt.h: content identity); a prelude without seq_<T>__eq does not link
+                e = 'seq_%s__eq(%s, %s)' % (m, self.addr(self.ex(a0)), self.addr(self.ex(args[1])))
+                self.cur.libcalls.append('std::vector operator==')
+                return e if name == 'operator==' else '(!%s)' % e
             raise LowerError("vector " + name)
         if cls == 'str':
             if name == 'operator=':
